@@ -223,6 +223,18 @@ impl Ignore {
                 Arc::downgrade(&ig_arc),
             );
         }
+        // A parent matcher taken from the cache was built for another search
+        // root and carries that root's absolute base. Everything below this
+        // root inherits the base from the matcher returned here, so make sure
+        // it is the base of *this* root.
+        if !ig.is_root()
+            && ig.0.absolute_base.as_deref() != Some(&*absolute_base)
+        {
+            ig = Ignore(Arc::new(IgnoreInner {
+                absolute_base: Some(absolute_base.clone()),
+                ..(*ig.0).clone()
+            }));
+        }
         (ig, errs.into_error_option())
     }
 
@@ -461,20 +473,23 @@ impl Ignore {
                 // off of `path`. Overall, this seems a little ham-fisted, but
                 // it does fix a nasty bug. It should do fine until we overhaul
                 // this crate.
-                let dirpath = self.0.dir.as_path();
-                let path_prefix = match strip_prefix("./", dirpath) {
-                    None => dirpath,
+                // `path` is spelled relative to the search root (the
+                // directory of the outermost matcher that is not an absolute
+                // parent), not relative to the directory of this matcher.
+                // So strip the root's spelling, by components, and re-base
+                // what is left on the root's absolute path.
+                let rootpath = self
+                    .parents()
+                    .take_while(|ig| !ig.0.is_absolute_parent)
+                    .last()
+                    .map_or(self.0.dir.as_path(), |ig| ig.0.dir.as_path());
+                let rootpath = match strip_prefix("./", rootpath) {
+                    None => rootpath,
                     Some(stripped_dot_slash) => stripped_dot_slash,
                 };
-                let path = match strip_prefix(path_prefix, path) {
-                    None => abs_parent_path.join(path),
-                    Some(p) => {
-                        let p = match strip_prefix("/", p) {
-                            None => p,
-                            Some(p) => p,
-                        };
-                        abs_parent_path.join(p)
-                    }
+                let path = match path.strip_prefix(rootpath) {
+                    Err(_) => abs_parent_path.join(path),
+                    Ok(p) => abs_parent_path.join(p),
                 };
 
                 for ig in
